@@ -256,7 +256,6 @@ func (d *DBM) proves(l lin, op token.Token, r lin) bool {
 	return ok && c <= need
 }
 
-
 // Facts collects the difference constraints that hold at instruction `at`.
 type Facts struct {
 	p   *Prog
